@@ -168,7 +168,8 @@ impl NameResolution {
         ensures !old(hir_table).issued().contains(r), final(hir_table).issued() == old(hir_table).issued().insert(r),
     { unimplemented!() }
     #[verifier::external_body]
-    pub fn lower_type_expr(&mut self, ty: &ast::TypeExpr, tparams: &TParamSet, current_package: &str, imports: &ImportSet) -> (r: hir::TypeExpr) { unimplemented!() }
+    // the lowering of a type expression that checks every package it names against the imports
+    pub fn lower_type_expr(&mut self, ty: &ast::TypeExpr, tparams: &TParamSet, current_package: &str, imports: &ImportSet) -> (r: hir::TypeExpr) ensures import_checked(r) { unimplemented!() }
     #[verifier::external_body] pub fn ice(&mut self, msg: String) { unimplemented!() }
 }
 #[verifier::external_body] pub fn rt_msg() -> (r: String) { unimplemented!() }
@@ -203,4 +204,9 @@ pub open spec fn ident_pat_ok(name: ast::AstIdent, ctx: &ResolutionContext, env0
             && (p matches hir::Pat::PVar { name: id, astptr: _ } && id == env1.last().1),
     }
 }
-
+pub uninterp spec fn import_checked(t: hir::TypeExpr) -> bool;        // produced by lower_type_expr (as opposed to the plain `.into()` conversion)
+#[verifier::external_body] pub fn empty_tparams() -> (r: TParamSet) { unimplemented!() }     // HashSet::new()
+// C16: the type a `let` is annotated with went through the import-checking lowering
+pub open spec fn let_annotation_import_checked(e: hir::Expr) -> bool {
+    e matches hir::Expr::ELet { annotation, .. } && (annotation matches Some(a) ==> import_checked(a))
+}
